@@ -8,7 +8,7 @@ import RV.Base.Proto
   term tokens:  I.<dt>.<int>  D.<m>.<s>  F.<dt>.<m>.<s>  B.0|1  S.<cps>.<langcps>  U.<cps>  N.<cps>   (cps = code points joined by `_`)
   query tokens: mod(N|D|R) offset(n|-) limit(n|-) nuser  (-| k (gv i | ga i E)…)  nproj (pv v | pe v E)…  (0 | 1 E)  nord ((A|D) E)…
   E: v i | c term | + E E | - E E | cmp (lt|gt|eq|ne|le|ge) E E | agg kind d(0|1) sep(-|s<cps>) (* | E)
-  answer cells: Q.<dt>.<num>.<den>  B.0|1  S.<cps>.<langcps>  U.<cps>  N.<cps>  -
+  answer cells: Q.<dt>.<num>.<den>.<scale>  B.0|1  S.<cps>.<langcps>  U.<cps>  N.<cps>  -
 -/
 open RV RV.C08 RV.Proto
 
@@ -50,7 +50,7 @@ def showVal : Val → String
   | none => "-"
   | some (.bnode l) => "N." ++ showCps l
   | some (.iri s) => "U." ++ showCps s
-  | some (.num d v _) => s!"Q.{d.name}.{v.num}.{v.den}"
+  | some (.num d v sc) => s!"Q.{d.name}.{v.num}.{v.den}.{sc}"
   | some (.bool b) => if b then "B.1" else "B.0"
   | some (.str l g) => s!"S.{showCps l}.{showCps g}"
 
